@@ -74,6 +74,7 @@ package v2
 //@   use reqIdx_elem(deref(ibm.Gs2.Requests), idx1)
 //@   use resIdx_elem(deref(ibm.Gs2.Responses), idx2)
 //@   use blkIdx_elem(deref(ibm.Gs2.Blocks), idx3)
+//@   use wireCid_def(deref(ibm.Gs2.Blocks)[idx3])
 //@   modifies alloc, allmaps("map[graphsync.RequestID]message.GraphSyncRequest"), allmaps("map[graphsync.RequestID]message.GraphSyncResponse"), allmaps("map[cid.Cid]blocks.Block")
 //@   ensures result1 == nil ==> (forall id graphsync.RequestID :: id in result0.requests ==> ridBytesLen(id) == 16)
 //@   ensures result1 == nil ==> (forall id graphsync.RequestID :: id in result0.responses ==> ridBytesLen(id) == 16)
@@ -144,9 +145,10 @@ package v2
 //@ pred encRes(r message.GraphSyncResponse, w ipldbind.GraphSyncResponse) :=
 //@   w.Id == ridBytes(r.requestID) && w.Status == r.status &&
 //@   ((len(r.metadata) == 0) <==> (w.Metadata == nil)) && (w.Metadata != nil ==> deref(w.Metadata) == r.metadata)
-//@ -- the CID a wire block will be filed under by the decoder
+//@ -- the CID a wire block will be filed under by the decoder (definition instantiated where needed: `use wireCid_def`)
 //@ fn wireCid(w ipldbind.GraphSyncBlock) ref
-//@ axiom wireCid_def: forall w ipldbind.GraphSyncBlock {wireCid(w)} :: wireCid(w) == sumCid(prefixFrom(w.Prefix), w.Data)
+//@ lemmadef wireCid_def(w ipldbind.GraphSyncBlock):
+//@   wireCid(w) == sumCid(prefixFrom(w.Prefix), w.Data)
 //@ -- well-formed blocks: the CID of a block is the hash of its own bytes under its own prefix
 //@ pred wfBlocks(g message.GraphSyncMessage) := forall k cid.Cid :: k in g.blocks ==>
 //@     sumErr(prefixOf(k), blkData(g.blocks[k])) == nil && sumCid(prefixOf(k), blkData(g.blocks[k])) == k
@@ -178,6 +180,7 @@ package v2
 //@   use distinctReqs_def(ibmRequests)
 //@   use distinctRess_def(ibmResponses)
 //@   use distinctBlks_def(ibmBlocks)
+//@   use wireCid_def(ibmBlocks[idx3])
 //@   hide card      -- the number of entries of a map is only passed through here
 //@   safety off
 //@   requires wfMsg(gsm) && wfBlocks(gsm)
@@ -203,9 +206,12 @@ package v2
 //@   loop 2 invariant len(ibmResponses) == idx2
 //@   loop 2 invariant forall i int :: 0 <= i && i < idx2 ==> (ibmResponses[i].Metadata != nil ==> isalloc(ibmResponses[i].Metadata))
 //@   loop 2 invariant forall i int :: 0 <= i && i < idx2 ==> encRes(responses[i], ibmResponses[i])
+//@   loop 2 invariant forall i int :: 0 <= i && i < idx2 ==> ridOf(ibmResponses[i].Id) == responses[i].requestID
 //@   loop 3 invariant len(ibmBlocks) == idx3
 //@   loop 3 invariant forall i int :: 0 <= i && i < idx3 ==> encBlk(blocks[i], ibmBlocks[i])
+//@   loop 3 invariant forall i int :: 0 <= i && i < idx3 ==> wireCid(ibmBlocks[i]) == blkCid(blocks[i])
 //@   loop 1 invariant forall i int :: 0 <= i && i < idx1 ==> cellsLive(ibmRequests[i])
+//@   loop 1 invariant forall i int :: 0 <= i && i < idx1 ==> ridOf(ibmRequests[i].Id) == requests[i].id
 //@   loop 1 invariant forall i int :: 0 <= i && i < idx1 ==> ibmRequests[i].Id == ridBytes(requests[i].id) && ibmRequests[i].RequestType == requests[i].requestType
 //@   loop 1 invariant forall i int :: 0 <= i && i < idx1 ==> ((requests[i].root == cid.Undef) <==> (ibmRequests[i].Root == nil)) && (ibmRequests[i].Root != nil ==> deref(ibmRequests[i].Root) == requests[i].root)
 //@   loop 1 invariant forall i int :: 0 <= i && i < idx1 ==> ((requests[i].selector == nil) <==> (ibmRequests[i].Selector == nil)) && (ibmRequests[i].Selector != nil ==> deref(ibmRequests[i].Selector) == requests[i].selector)
@@ -228,6 +234,7 @@ package v2
 //@   (forall k graphsync.RequestID :: k in g.responses ==> len(ridBytes(k)) == 16)
 //@ func gsvRoundTrip
 //@   lenient
+//@   splitforall
 //@   use reqIdsOK_def(deref(ibm.Gs2.Requests))
 //@   use resIdsOK_def(deref(ibm.Gs2.Responses))
 //@   use blksOK_def(deref(ibm.Gs2.Blocks))
